@@ -599,9 +599,11 @@ fn check_route(rep: &mut Report, c: &RouteCase) {
 }
 
 fn gen_batch(rng: &mut Rng, keys: &[String], rep: &mut Report) -> Vec<String> {
-    let n = match rng.gen_range(0..6) {
-        0 => 1,
-        1 => 50,
+    let n = match rng.gen_range(0..40) {
+        0..=5 => 1,
+        6..=11 => 50,
+        // batches beyond any plausible per-message limit (a split of an over-long message must not lose its tail)
+        12 => *[257usize, 300, 513, 700].choose(rng).unwrap(),
         _ => rng.gen_range(2..50),
     };
     let mut b: Vec<String> = (0..n).map(|_| keys[rng.gen_range(0..keys.len())].clone()).collect();
@@ -838,9 +840,100 @@ fn run_cfg(rep: &mut Report, rng: &mut Rng, cfg: &Cfg, keys: &[String], history:
         bigger.push(x);
         check_disrupt(rep, &Cfg::new(bigger, cfg.rf, cfg.vn), x, dkeys);
         route_cases(rep, rng, cfg, keys, batches);
+        // a handful per run: thread interleavings are sampled, not enumerated
+        if rng.gen_ratio(1, 8) && rep.counters.get("route:churn_runs").copied().unwrap_or(0) < 6 && cfg.vn <= 16 {
+            rep.count("route:churn_runs");
+            route_under_churn(rep, rng, cfg, keys);
+        }
     });
     if let Err(p) = r {
         viol(rep, format!("C19|HashRing|panic|{}", panic_class(&p)), || p.clone(), || json!({"check": "config", "cfg": cfg.json()}));
+    }
+}
+
+/// Routing while another thread changes the membership of the shared ring (the gossip tick and a membership update
+/// run on different threads in the server). Node X joins and leaves in a loop; X has no address, so it can never be a
+/// target. Every replica that owns the key both with and without X (other than the sender) must be handed the
+/// update in every routing call, whatever the other thread is doing with the ring lock at that moment.
+fn route_under_churn(rep: &mut Report, rng: &mut Rng, cfg: &Cfg, keys: &[String]) {
+    if cfg.members.len() < 2 {
+        return;
+    }
+    let sender = cfg.members[rng.gen_range(0..cfg.members.len())];
+    let me = ReplicaId::new(sender);
+    let x = outsiders(rng, &cfg.members, 1)[0];
+    let ring = Arc::new(RwLock::new(HashRing::new(rid(&cfg.members), cfg.vn, cfg.rf)));
+    let peers: HashMap<ReplicaId, String> = cfg.members.iter().filter(|m| **m != sender).map(|&i| (ReplicaId::new(i), addr(i))).collect();
+    let router = GossipRouter::new(ring.clone(), me, peers, true);
+    let batch: Vec<String> = (0..40).map(|_| keys[rng.gen_range(0..keys.len())].clone()).collect();
+    // owners with and without X
+    let without: Vec<BTreeSet<u64>> = batch.iter().map(|k| ids(&ring.read().unwrap().get_replicas(k)).into_iter().collect()).collect();
+    ring.write().unwrap().add_node(ReplicaId::new(x));
+    let with: Vec<BTreeSet<u64>> = batch.iter().map(|k| ids(&ring.read().unwrap().get_replicas(k)).into_iter().collect()).collect();
+    ring.write().unwrap().remove_node(ReplicaId::new(x));
+    let stop = Arc::new(std::sync::atomic::AtomicBool::new(false));
+    let churn = {
+        let (ring, stop) = (ring.clone(), stop.clone());
+        std::thread::spawn(move || {
+            let mut n = 0u64;
+            while !stop.load(std::sync::atomic::Ordering::Relaxed) {
+                {
+                    let mut w = ring.write().unwrap();
+                    w.add_node(ReplicaId::new(x));
+                    // hold the write lock for a moment, as a membership update that rebuilds the ring does
+                    for _ in 0..2000 {
+                        std::hint::spin_loop();
+                    }
+                }
+                {
+                    let mut w = ring.write().unwrap();
+                    w.remove_node(ReplicaId::new(x));
+                    for _ in 0..2000 {
+                        std::hint::spin_loop();
+                    }
+                }
+                n += 1;
+            }
+            n
+        })
+    };
+    let mut worst: Option<(usize, u64, Vec<u64>)> = None;
+    let rounds = 150;
+    for _ in 0..rounds {
+        let deltas: Vec<ReplicationDelta> = batch.iter().enumerate().map(|(i, k)| ReplicationDelta::new(k.clone(), ReplicatedValue::with_value(SDS::from_str("v"), LamportClock { time: i as u64, replica_id: me }), me)).collect();
+        let table = router.route_deltas(deltas);
+        let mut got: Vec<BTreeSet<u64>> = vec![BTreeSet::new(); batch.len()];
+        for (t, ds) in table.iter() {
+            for d in ds {
+                let i = d.value.timestamp.time as usize;
+                if i < got.len() {
+                    got[i].insert(t.0);
+                }
+            }
+        }
+        for i in 0..batch.len() {
+            let must: Vec<u64> = without[i].intersection(&with[i]).copied().filter(|t| *t != sender).collect();
+            if let Some(&t) = must.iter().find(|t| !got[i].contains(t)) {
+                worst.get_or_insert((i, t, got[i].iter().copied().collect()));
+            }
+            if let Some(&t) = got[i].iter().find(|t| !without[i].contains(t) && !with[i].contains(t)) {
+                worst.get_or_insert((i, t, got[i].iter().copied().collect()));
+            }
+        }
+        rep.count("route:calls_under_concurrent_membership_change");
+        std::thread::yield_now();
+    }
+    stop.store(true, std::sync::atomic::Ordering::Relaxed);
+    let cycles = churn.join().unwrap_or(0);
+    rep.add("route:membership_change_cycles_during_routing", cycles);
+    rep.distinct(&("route-under-churn", cfg.members.len(), cfg.rf.min(99), cfg.vn));
+    if let Some((i, t, got)) = worst {
+        let starved = without[i].contains(&t) && with[i].contains(&t);
+        rep.violation(
+            format!("C19|GossipRouter::new|route_deltas|{}|under-concurrent-membership-change", if starved { "owner-starved" } else { "sent-to-non-owner" }),
+            format!("key {} sender {}: owners without node {} are {:?}, with it {:?}; a routing call made while another thread added/removed node {} handed the update to {:?} (node {})", show(&batch[i]), sender, x, without[i], with[i], x, got, t),
+            json!({"check": "route-churn", "cfg": cfg.json(), "note": "thread interleaving: not replayable by seed; the witness is the observation"}),
+        );
     }
 }
 
@@ -852,6 +945,7 @@ fn replay(rep: &mut Report, w: &Value, args: &Args) {
         "disrupt" => check_disrupt(rep, &Cfg::from(&w["cfg"]), w["x"].as_u64().unwrap_or(0), &[key]),
         "route" => check_route(rep, &RouteCase::from(w)),
         "fingerprint" => check_fingerprint(rep),
+        "route-churn" => route_under_churn(rep, &mut args.rng(19), &Cfg::from(&w["cfg"]), &corner_keys()),
         "config" => {
             let keys = corner_keys();
             run_cfg(rep, &mut args.rng(19), &Cfg::from(&w["cfg"]), &keys, "replay", 8, 200, 2)
